@@ -36,7 +36,7 @@ ASSUMPTIONS = [
     "Rulesets are permuted after parsing (the grammar requires superiors to be defined first).",
 ]
 REQUIRED = ["op:rotation-compare", "op:order-compare", "op:subset-compare", "cut:gene", "cut:core", "cut:neighbourhood",
-            "cut:empty", "rotation:with-protoclusters", "order:with-protoclusters"]
+            "cut:empty", "rotation:with-protoclusters", "order:with-protoclusters", "op:shipped-selection-in-history"]
 
 
 def rotate_world(world, k: int):
@@ -272,7 +272,81 @@ def run_world(ctx, world, index):
                                  "subset": per.get(name, [])}, {"world": world, "order": subset})
 
 
+def _ruleset_view(ruleset):
+    return {"rules": [(r.name, r.category, r.cutoff, r.neighbourhood) for r in ruleset.rules],
+            "multipliers": (ruleset.multipliers.cutoff, ruleset.multipliers.neighbourhood)}
+
+
+def shipped_selection_history(ctx, rng):
+    """ the shipped rules through the real get_ruleset, asked for a series of selections in one process (as
+        library use and the reuse checks do): every answer must be the one a fresh process gives for the same
+        options, and must hold exactly the rules of that strictness selected by name and category """
+    from types import SimpleNamespace
+    from antismash.detection import hmm_detection
+
+    def options(strictness="relaxed", names=(), categories=(), taxon="bacteria", cmul=1.0, nmul=1.0):
+        return SimpleNamespace(hmmdetection_strictness=strictness, hmmdetection_limit_to_rules=list(names),
+                               hmmdetection_limit_to_categories=list(categories), taxon=taxon,
+                               hmmdetection_fungal_cutoff_multiplier=cmul,
+                               hmmdetection_fungal_neighbourhood_multiplier=nmul)
+
+    def fresh(opts):
+        hmm_detection._RULESETS.clear()  # pylint: disable=protected-access
+        view = _ruleset_view(hmm_detection.get_ruleset(opts))
+        hmm_detection._RULESETS.clear()  # pylint: disable=protected-access
+        return view
+
+    full = {level: fresh(options(level)) for level in ("strict", "relaxed", "loose")}
+    names_all = [r[0] for r in full["loose"]["rules"]]
+    cats_all = sorted({r[1] for r in full["loose"]["rules"]})
+    both = sorted(set(names_all) & set(cats_all))      # identifiers that are a rule name and a category
+    pool = []
+    for ident in both[:3]:
+        pool += [dict(names=[ident]), dict(categories=[ident])]
+    a, b = rng.sample(names_all, 2)
+    cat = rng.choice(cats_all)
+    pool += [dict(names=[a, b]), dict(names=[b, a]), dict(names=[a], categories=[cat]), dict(names=[a, cat]),
+             dict(categories=[cat]), dict(), dict(strictness="strict"), dict(strictness="loose"),
+             dict(strictness="strict", names=[a]), dict(strictness="loose", names=[a]),
+             dict(taxon="fungi", nmul=1.5), dict(taxon="fungi", cmul=2.0, nmul=1.5, names=[a, b]),
+             dict(taxon="fungi", cmul=1.0, nmul=1.0, categories=[cat])]
+    sequence = pool + rng.sample(pool, len(pool))
+    expected = {}
+    for kwargs in pool:
+        expected[repr(sorted(kwargs.items()))] = fresh(options(**kwargs))
+    hmm_detection._RULESETS.clear()  # pylint: disable=protected-access
+    try:
+        for step, kwargs in enumerate(sequence):
+            ctx.count("op:shipped-selection-in-history")
+            opts = options(**kwargs)
+            case = {"selection_history": [sorted(k.items()) for k in sequence[:step + 1]]}
+            ok, ruleset = ctx.guard("get-ruleset-crash", case, hmm_detection.get_ruleset, opts)
+            if not ok:
+                return
+            got = _ruleset_view(ruleset)
+            want = expected[repr(sorted(kwargs.items()))]
+            if got != want:
+                ctx.violate("selection-answer-depends-on-earlier-requests",
+                            {"step": step, "request": sorted(kwargs.items()),
+                             "got_rules": [r[0] for r in got["rules"]][:12], "fresh_rules": [r[0] for r in want["rules"]][:12],
+                             "got_n": len(got["rules"]), "fresh_n": len(want["rules"]),
+                             "multipliers": [got["multipliers"], want["multipliers"]]}, case)
+                return
+            level = kwargs.get("strictness", "relaxed")
+            names, cats = set(kwargs.get("names", ())), set(kwargs.get("categories", ()))
+            selected = [r[0] for r in full[level]["rules"] if (not names or r[0] in names) and (not cats or r[1] in cats)]
+            if [r[0] for r in got["rules"]] != selected:
+                ctx.violate("selection-holds-exactly-the-selected-rules",
+                            {"request": sorted(kwargs.items()), "got": [r[0] for r in got["rules"]][:12],
+                             "expected": selected[:12]}, case)
+                return
+    finally:
+        hmm_detection._RULESETS.clear()  # pylint: disable=protected-access
+
+
 def run(ctx):
+    if ctx.worker == 0:
+        ctx.guard("harness-or-crash", {"selection_history": "setup"}, shipped_selection_history, ctx, ctx.rng("selection"))
     c03.install_stage_monitors(ctx)
     try:
         rng = ctx.rng("worlds")
@@ -285,6 +359,9 @@ def run(ctx):
 
 
 def replay(ctx, case):
+    if "selection_history" in case:
+        shipped_selection_history(ctx, ctx.rng("selection"))
+        return
     c03.install_stage_monitors(ctx)
     try:
         world = case.get("world", case)
